@@ -73,7 +73,7 @@ class Prop:
                            'fold by bmp.rs apply_snapshot / track_peer_*')
     rule = ('a case is (programs of <= 3 threads, schedule); non-trivial when a subscription registers while another thread still has '
             'steps to run and at least one route event is delivered to it; distinct = distinct (programs, canonical event sequences); '
-            'every run enumerates ALL interleavings of subscribe with each mutator kind (16, incl. mark_llgr_stale and drop_llgr_stale_families) from each of six start states (classes '
+            'every run enumerates ALL interleavings of subscribe with each mutator kind (16, incl. mark_llgr_stale and drop_llgr_stale_families) from each of nine start states (three with an Add-Path peer whose path ids are purged in part), every kept-subset of three path ids x the three selective purges (addpath_subset:*) (classes '
             'race:<mutator>:<state>), two-subscriber and unsubscribe/resubscribe classes, and the track_peer state x input matrix; '
             'the thorough tier adds every interleaving (12600 schedules) of subscribe || one session thread || soft_reset_in')
     exhaustive = {'quick': False, 'thorough': False}
@@ -146,6 +146,15 @@ class Prop:
             'nollgr_stale': [('ins', K(1, 0), 4), ('ins', K(1, 1), 7), ('grdown', 1)],
             # Sources marked LLGR-stale, paths retained; another peer's and a later session's paths are not marked
             'llgr_marked': [('ins', K(1, 0), 1), ('ins', K(1, 1), 2), ('ins', K(2, 0), 3), ('mllgr', 1), ('ins', K(2, 1), 1)],
+            # an Add-Path peer: several path ids on one prefix, of which a purge takes only some
+            # (graceful restart, only path id 1 re-advertised by the new session)
+            'addpath_gr_partial_refresh': [('ins', K(1, 0, 0, 0), 1), ('ins', K(1, 0, 0, 1), 2), ('ins', K(1, 0, 0, 2), 3), ('ins', K(1, 1, 0, 0), 1),
+                                           ('grdown', 1), ('up', 1), ('ins', K(1, 0, 0, 1), 2)],
+            # (NO_LLGR on some of the path ids of a prefix, on all of another prefix)
+            'addpath_nollgr_some': [('ins', K(1, 0, 0, 0), 4), ('ins', K(1, 0, 0, 1), 1), ('ins', K(1, 0, 0, 2), 5), ('ins', K(1, 1, 0, 0), 2), ('ins', K(1, 1, 0, 1), 6)],
+            # (LLGR: old session's Sources marked, one path id per prefix refreshed by the new session)
+            'addpath_llgr_partial_refresh': [('ins', K(1, 0, 0, 0), 1), ('ins', K(1, 0, 0, 1), 2), ('ins', K(1, 1, 0, 0), 3), ('ins', K(1, 1, 0, 1), 1),
+                                             ('grdown', 1), ('mllgr', 1), ('up', 1), ('ins', K(1, 0, 0, 1), 2), ('ins', K(1, 1, 0, 0), 3)],
         }
         mutators = {
             'ins_new': [('ins', K(1, 1, 1), 0)], 'ins_replace': [('ins', K(1, 0), 0)], 'rem': [('rem', K(1, 0))],
@@ -162,6 +171,22 @@ class Prop:
                 for perm in self._interleavings([3, nm]):
                     out.append(dict(pols=[[1], [2]], lims=[], progs=progs, sched=[1] * npre + list(perm),
                                     cls='race:%s:%s' % (mname, sname)))
+        # every subset of the three path ids an Add-Path peer holds on one prefix is the part a purge leaves
+        # alone (refreshed by the new session / without NO_LLGR), for each purge that selects by path
+        for mask in range(8):
+            keep = [pid for pid in (0, 1, 2) if mask >> pid & 1]
+            three = [('ins', K(1, 0, 0, pid), pid + 1) for pid in (0, 1, 2)]
+            refresh = [('ins', K(1, 0, 0, pid), (pid + 2) % 4) for pid in keep]
+            kinds = {
+                'dstale': (three + [('grdown', 1), ('up', 1)] + refresh, [('dstale', 1)]),
+                'dllgr': (three + [('grdown', 1), ('mllgr', 1), ('up', 1)] + refresh, [('dllgr', 1)]),
+                'mllgr': ([('ins', K(1, 0, 0, pid), pid + 1 if pid in keep else 4 + pid) for pid in (0, 1, 2)], [('mllgr', 1)]),
+            }
+            for kname, (pre, mut) in kinds.items():
+                npre = sum(NSTEPS[o[0]] for o in pre)
+                for perm in self._interleavings([3, 3]):
+                    out.append(dict(pols=[], lims=[], progs=[[('sub', 0)], pre + mut], sched=[1] * npre + list(perm),
+                                    cls='addpath_subset:%s:kept_%s' % (kname, ''.join(map(str, keep)) or 'none')))
         # two subscriptions: the second registers while the first is live / snapshotting, a writer in between
         for perm in self._interleavings([3, 3, 2]):
             out.append(dict(pols=[[1]], lims=[], progs=[[('sub', 0)], [('sub', 1)], [('ins', K(1, 0), 1), ('ins', K(1, 1), 2)]],
